@@ -378,6 +378,7 @@ class ExprMixin:
       except Unsupported:
         return z3.Or([self.eq(x, VStr(k) if isinstance(k, str) else VInt(k)) for k in container.d] or [z3.BoolVal(False)])
     if isinstance(container, VMap):
+      self.check_guard(container, 'contains')
       return z3.Select(container.has, self.unwrap_key(container, x))
     if isinstance(container, VObj):
       mod, cls, m = self.world.method(container.cls, '__contains__')
@@ -455,6 +456,7 @@ class ExprMixin:
         return base.d[k]
       self.raise_('KeyError', idx)
     if isinstance(base, VMap):
+      self.check_guard(base, 'read')
       k = self.unwrap_key(base, idx)
       if not self.spec_mode and self.branch(z3.Not(z3.Select(base.has, k))):
         self.raise_('KeyError', idx)
